@@ -18,6 +18,7 @@ type Goroutine struct {
 	depth int
 	done  bool
 
+	forkEv    int
 	blocked   bool
 	waitOps   []*waitOp
 	ready     func() bool
@@ -32,23 +33,27 @@ type opHook struct {
 }
 
 type waitOp struct {
-	g      *Goroutine
-	ch     *Chan
-	send   bool
-	val    Value
-	idx    int
-	ok     bool
-	closed bool // woken by close
+	beginEv int // race query: begin event of the blocked operation
+	peerEv  int // event of the partner that completed it
+	g       *Goroutine
+	ch      *Chan
+	send    bool
+	val     Value
+	idx     int
+	ok      bool
+	closed  bool // woken by close
 }
 
 type Chan struct {
-	id     int
-	cap    int
-	buf    []Value
-	closed bool
-	recvq  []*waitOp
-	sendq  []*waitOp
-	zero   Value
+	bufEv   []int // race query: begin events of the sends whose values sit in buf
+	closeEv int
+	id      int
+	cap     int
+	buf     []Value
+	closed  bool
+	recvq   []*waitOp
+	sendq   []*waitOp
+	zero    Value
 }
 
 func (r *Run) newChan(n int, elem types.Type) *Chan {
@@ -57,7 +62,7 @@ func (r *Run) newChan(n int, elem types.Type) *Chan {
 	if elem != nil {
 		z = zero(elem)
 	}
-	return &Chan{id: r.chanCount, cap: n, zero: z}
+	return &Chan{id: r.chanCount, cap: n, zero: z, closeEv: -1}
 }
 
 func (r *Run) deterministic() bool { return r.W.Lim.Preemptions < 0 || r.schedOff }
@@ -65,7 +70,10 @@ func (r *Run) deterministic() bool { return r.W.Lim.Preemptions < 0 || r.schedOf
 // spawn starts a new target goroutine; it becomes runnable but does not run
 // until scheduled.
 func (r *Run) spawn(parent *Goroutine, fn Value, args []Value, site string) {
-	g := &Goroutine{id: len(r.gs), r: r, wake: make(chan struct{}, 1), name: site}
+	g := &Goroutine{id: len(r.gs), r: r, wake: make(chan struct{}, 1), name: site, forkEv: -1}
+	if r.race != nil {
+		g.forkEv = r.syncEvent(parent)
+	}
 	r.gs = append(r.gs, g)
 	r.wg.Add(1)
 	go func() {
@@ -101,6 +109,9 @@ func (r *Run) spawn(parent *Goroutine, fn Value, args []Value, site string) {
 			}
 			r.handoffToMainForEnd()
 		}()
+		if r.race != nil {
+			r.hb(g.forkEv, r.syncEvent(g))
+		}
 		r.callFunction(g, nil, fn, args)
 		g.done = true
 		r.exitGoroutine(g)
@@ -355,23 +366,46 @@ func (r *Run) doSend(g *Goroutine, ch *Chan, v Value) {
 	if ch.closed {
 		r.panicRuntime(g, "send on closed channel")
 	}
+	sb := -1
+	if r.race != nil {
+		sb = r.syncEvent(g)
+	}
 	if len(ch.recvq) > 0 {
 		op := ch.recvq[0]
 		op.val, op.ok = v, true
+		op.peerEv = sb
+		if r.race != nil {
+			// the waiting receive began before this send completes
+			r.hb(op.beginEv, r.syncEvent(g))
+		}
 		r.fire(op)
 		return
 	}
 	ch.buf = append(ch.buf, v)
+	ch.bufEv = append(ch.bufEv, sb)
 }
 
 // doRecv performs a receive that is known to be ready.
 func (r *Run) doRecv(g *Goroutine, ch *Chan) (Value, bool) {
+	rb, re := -1, -1
+	if r.race != nil {
+		rb = r.syncEvent(g)
+	}
 	if len(ch.buf) > 0 {
 		v := ch.buf[0]
 		ch.buf = ch.buf[1:]
+		if r.race != nil {
+			re = r.syncEvent(g)
+			if len(ch.bufEv) > 0 {
+				r.hb(ch.bufEv[0], re)
+				ch.bufEv = ch.bufEv[1:]
+			}
+		}
 		if len(ch.sendq) > 0 {
 			op := ch.sendq[0]
 			ch.buf = append(ch.buf, op.val)
+			ch.bufEv = append(ch.bufEv, op.beginEv)
+			op.peerEv = re // capacity: this receive precedes the completion of the blocked send
 			r.fire(op)
 		}
 		return v, true
@@ -379,10 +413,18 @@ func (r *Run) doRecv(g *Goroutine, ch *Chan) (Value, bool) {
 	if len(ch.sendq) > 0 {
 		op := ch.sendq[0]
 		v := op.val
+		if r.race != nil {
+			re = r.syncEvent(g)
+			r.hb(op.beginEv, re)
+		}
+		op.peerEv = rb
 		r.fire(op)
 		return v, true
 	}
 	// closed
+	if r.race != nil {
+		r.hb(ch.closeEv, r.syncEvent(g))
+	}
 	return copyVal(ch.zero), false
 }
 
@@ -397,11 +439,17 @@ func (r *Run) chanSend(g *Goroutine, ch *Chan, v Value) {
 		r.doSend(g, ch, v)
 		return
 	}
-	op := &waitOp{g: g, ch: ch, send: true, val: v}
+	op := &waitOp{g: g, ch: ch, send: true, val: v, beginEv: -1, peerEv: -1}
+	if r.race != nil {
+		op.beginEv = r.syncEvent(g)
+	}
 	ch.sendq = append(ch.sendq, op)
 	g.waitOps = []*waitOp{op}
 	g.fired = nil
 	r.block(g, fmt.Sprintf("chan send #%d", ch.id))
+	if r.race != nil && g.fired != nil {
+		r.hb(g.fired.peerEv, r.syncEvent(g))
+	}
 	if g.fired != nil && g.fired.closed {
 		r.panicRuntime(g, "send on closed channel")
 	}
@@ -417,13 +465,19 @@ func (r *Run) chanRecv(g *Goroutine, ch *Chan) (Value, bool) {
 	if r.recvReady(ch) {
 		return r.doRecv(g, ch)
 	}
-	op := &waitOp{g: g, ch: ch}
+	op := &waitOp{g: g, ch: ch, beginEv: -1, peerEv: -1}
+	if r.race != nil {
+		op.beginEv = r.syncEvent(g)
+	}
 	ch.recvq = append(ch.recvq, op)
 	g.waitOps = []*waitOp{op}
 	g.fired = nil
 	r.block(g, fmt.Sprintf("chan receive #%d", ch.id))
 	if g.fired == nil {
 		r.abort("receiver woken without a fired op")
+	}
+	if r.race != nil {
+		r.hb(g.fired.peerEv, r.syncEvent(g))
 	}
 	return g.fired.val, g.fired.ok
 }
@@ -437,9 +491,13 @@ func (r *Run) chanClose(g *Goroutine, ch *Chan) {
 		r.panicRuntime(g, "close of closed channel")
 	}
 	ch.closed = true
+	if r.race != nil {
+		ch.closeEv = r.syncEvent(g)
+	}
 	for len(ch.recvq) > 0 {
 		op := ch.recvq[0]
 		op.val, op.ok = copyVal(ch.zero), false
+		op.peerEv = ch.closeEv
 		r.fire(op)
 	}
 	for len(ch.sendq) > 0 {
@@ -502,11 +560,18 @@ func (r *Run) doSelect(g *Goroutine, fr *frame, ins *ssa.Select, ci *cinstr) Val
 	}
 	g.waitOps = nil
 	g.fired = nil
+	selBegin := -1
 	for i, st := range ins.States {
 		if chans[i] == nil {
 			continue
 		}
-		op := &waitOp{g: g, ch: chans[i], send: st.Dir == types.SendOnly, val: vals[i], idx: i}
+		op := &waitOp{g: g, ch: chans[i], send: st.Dir == types.SendOnly, val: vals[i], idx: i, beginEv: -1, peerEv: -1}
+		if r.race != nil {
+			if selBegin < 0 {
+				selBegin = r.syncEvent(g)
+			}
+			op.beginEv = selBegin
+		}
 		if op.send {
 			chans[i].sendq = append(chans[i].sendq, op)
 		} else {
@@ -518,6 +583,9 @@ func (r *Run) doSelect(g *Goroutine, fr *frame, ins *ssa.Select, ci *cinstr) Val
 	op := g.fired
 	if op == nil {
 		r.abort("select woken without a fired op")
+	}
+	if r.race != nil {
+		r.hb(op.peerEv, r.syncEvent(g))
 	}
 	if op.send {
 		if op.closed {
@@ -552,6 +620,7 @@ func (r *Run) mutexLock(g *Goroutine, p *Value) {
 		r.block(g, "mutex")
 	}
 	m.locked = true
+	r.lockAcquired(g, p)
 }
 
 func (r *Run) mutexUnlock(g *Goroutine, p *Value) {
@@ -559,6 +628,7 @@ func (r *Run) mutexUnlock(g *Goroutine, p *Value) {
 	if !m.locked {
 		panic(targetPanic{v: r.runtimeError("sync: unlock of unlocked mutex"), site: r.siteOf(g)})
 	}
+	r.lockReleased(g, p)
 	m.locked = false
 	r.yield(g, "unlock")
 }
@@ -571,6 +641,7 @@ func (r *Run) mutexRLock(g *Goroutine, p *Value) {
 		r.block(g, "rwmutex")
 	}
 	m.readers++
+	r.lockAcquired(g, p)
 }
 
 func (r *Run) mutexRUnlock(g *Goroutine, p *Value) {
@@ -578,6 +649,7 @@ func (r *Run) mutexRUnlock(g *Goroutine, p *Value) {
 	if m.readers <= 0 {
 		panic(targetPanic{v: r.runtimeError("sync: RUnlock of unlocked RWMutex"), site: r.siteOf(g)})
 	}
+	r.lockReleased(g, p)
 	m.readers--
 	r.yield(g, "runlock")
 }
